@@ -208,6 +208,15 @@ class _X:
                     if exc: t.fail(NSB if sfx else "index.setitem.array.slice", self.ctx(what + "=array(len %d)" % k), "stored", exc)
                     self.state_is("index.setitem.array.slice", what + "=array(len %d)" % k, L)
                     if k: self.restore()
+                    # array store whose source is THE ARRAY ITSELF (a slice selecting all n elements): a Python list reads the
+                    # whole right-hand side before it writes (L[::-1] = L reverses L)
+                    if k == n and n >= 2:
+                        t.add("transitions"); t.cls("index.setitem.array.slice.source-is-self")
+                        _, exc = self.attempt(lambda: a.__setitem__(sl, a))
+                        L = list(base); L[sl] = list(base)
+                        if exc: t.fail("index.setitem.array.slice.source-is-self", self.ctx(what + "=a"), "stored", exc)
+                        self.state_is("index.setitem.array.slice.source-is-self", what + "=a (the array itself)", L)
+                        self.restore()
                     # array store, wrong lengths
                     self.must_raise("index.setitem.array.slice.wrong-length", what + "=array(len %d)" % (k + 1),
                                     lambda: a.__setitem__(sl, self.src[k + 1]))
@@ -381,5 +390,5 @@ def run_item(item, t):
     _X(item, t).run()
 
 
-CLASSES = ["index.int.in-range", "index.int.negative", "index.int.out-of-range", "slice.zero-step", "slice.empty",
+CLASSES = ["index.setitem.array.slice.source-is-self", "index.int.in-range", "index.int.negative", "index.int.out-of-range", "slice.zero-step", "slice.empty",
            "slice.negative-step", "slice.neg-step-start-before-begin", "slice.clamped", "slice.generic", "mask.wrong-length", "mask.all-zero", "mask.all-one", "mask.mixed"]
